@@ -282,9 +282,9 @@ fn join(v: &[u32]) -> String {
 pub fn run(run: &Run) {
     run.set_rule("Ecube: state = a term (pair of terms), transitions = ^ (4 forms), ! (2 forms), ==, value, counters; Soes: state = an ordered term list (pair of lists), transitions = from_cubes, | (4 forms), value, Lut::from, is_zero/is_one; non-trivial = distinct operands / a non-empty list");
     run.assume("reference model: parity of the variables xor the xnor flag; OR of the term values (model::cube::EcubeM)");
-    let n = 5u32;
+    let n = 6u32;
     let size = 1u64 << (n + 1);
-    run.section("ECUBE all ordered pairs of the 64 terms over 5 variables: ^ (4 forms), ! (2 forms), ==, value, counters", true, "complete: all pairs, all assignments x two backgrounds", size * size, 64, |r, l| {
+    run.section("ECUBE all ordered pairs of the 128 terms over 6 variables: ^ (4 forms), ! (2 forms), ==, value, counters", true, "complete: all pairs, all assignments x two backgrounds", size * size, 64, |r, l| {
         for idx in r {
             let (a, b) = (idx / size, idx % size);
             let (va, xa, vb, xb) = ((a >> 1) as u32, a & 1 != 0, (b >> 1) as u32, b & 1 != 0);
